@@ -617,3 +617,366 @@ async fn gr_replay() {
     }
     out.flush().unwrap();
 }
+
+// =====================================================================================================
+// C01: export pipeline (spec/Export/Export.tla).  A real TableManager, real Sources feeding it, and a
+// real PeerSession for the observing neighbour whose event delivery (handle_prefix_update), flushing
+// (flush_tx) and route refresh (do_route_refresh) are stepped one model action at a time; the bytes
+// written to the loopback socket are decoded on the other side into the neighbour's Adj-RIB-In.
+//
+// Input lines:  seq <id> <sendmax>
+//               announce <src> <p> <cls> | withdraw <src> <p> | peerdown <src> | markllgr <src>
+//               deliver | flush | refresh | fresh
+// =====================================================================================================
+
+struct Observer {
+    sess: PeerSession,
+    stream: TcpStream,
+    remote: Remote,
+    local: SocketAddr,
+    peer: SocketAddr,
+}
+
+struct ExWorld {
+    global: GlobalHandle,
+    tables: TableHandle,
+    obs_addr: IpAddr,
+    sendmax: usize,
+    sources: FnvHashMap<String, Arc<table::Source>>,
+    /// attribute sets are interned per (source, class), as the daemon does for identical re-announcements
+    attrs: FnvHashMap<(String, String), Arc<Vec<packet::Attribute>>>,
+    obs: Option<Observer>,
+    mirror: std::collections::BTreeMap<(String, u32), (String, String, bool)>,
+}
+
+fn ex_src_addr(s: &str) -> IpAddr {
+    match s {
+        "s1" => IpAddr::V4(Ipv4Addr::new(10, 0, 0, 1)),
+        "s2" => IpAddr::V4(Ipv4Addr::new(10, 0, 0, 2)),
+        "o" => IpAddr::V4(Ipv4Addr::new(127, 0, 0, 1)),
+        x => panic!("harness: src {x}"),
+    }
+}
+
+fn ex_src_asn(s: &str) -> u32 {
+    match s {
+        "s1" => 65011,
+        "s2" => 65012,
+        _ => 65002,
+    }
+}
+
+fn ex_src_of_asn(a: u32) -> &'static str {
+    match a {
+        65011 => "s1",
+        65012 => "s2",
+        65002 => "o",
+        _ => "?",
+    }
+}
+
+fn ex_new_source(s: &str) -> Arc<table::Source> {
+    // router ids implement the model's SrcRank: o (1) < s1 (2) < s2 (3); everything else ties
+    let rid = match s {
+        "o" => 1,
+        "s1" => 2,
+        _ => 3,
+    };
+    Arc::new(table::Source::new(
+        ex_src_addr(s),
+        IpAddr::V4(Ipv4Addr::new(127, 0, 0, 9)),
+        ex_src_asn(s),
+        65001,
+        Ipv4Addr::new(1, 1, 1, rid),
+        PeerRole::Ebgp,
+    ))
+}
+
+fn ex_prefix(p: &str) -> packet::Nlri {
+    match p {
+        "p1" => "10.1.1.0/24".parse().unwrap(),
+        "p2" => "10.1.2.0/24".parse().unwrap(),
+        "p3" => "10.1.3.0/24".parse().unwrap(),
+        x => panic!("harness: prefix {x}"),
+    }
+}
+
+fn ex_prefix_name(n: &packet::Nlri) -> String {
+    for p in ["p1", "p2", "p3"] {
+        if &ex_prefix(p) == n {
+            return p.to_string();
+        }
+    }
+    format!("?{}", n)
+}
+
+fn ex_attrs(src: &str, cls: &str) -> Arc<Vec<packet::Attribute>> {
+    let c: u32 = (65000u32 << 16) | if cls == "x" { 1 } else { 2 };
+    Arc::new(vec![
+        packet::Attribute::new_with_value(packet::Attribute::ORIGIN, 0).unwrap(),
+        packet::Attribute::empty_as_path().as_path_prepend(ex_src_asn(src)),
+        packet::Attribute::new_with_bin(packet::Attribute::COMMUNITY, c.to_be_bytes().to_vec()).unwrap(),
+    ])
+}
+
+/// (src, cls, llgr) recovered from exported attributes
+fn ex_content(attr: &[packet::Attribute]) -> (String, String, bool) {
+    let mut src = "?".to_string();
+    let mut cls = "?".to_string();
+    let mut ll = false;
+    for a in attr {
+        if a.code() == packet::Attribute::AS_PATH {
+            if let Some(o) = a.as_path_origin() {
+                src = ex_src_of_asn(o).to_string();
+            }
+        }
+        if a.code() == packet::Attribute::COMMUNITY {
+            if let Some(b) = a.binary() {
+                for c in b.chunks(4) {
+                    let v = u32::from_be_bytes([c[0], c[1], c[2], c[3]]);
+                    if v == 0xffff_0006 {
+                        ll = true;
+                    } else if v >> 16 == 65000 {
+                        cls = if v & 0xffff == 1 { "x".into() } else { "y".into() };
+                    }
+                }
+            }
+        }
+    }
+    (src, cls, ll)
+}
+
+async fn ex_observer(global: &GlobalHandle, tables: &TableHandle, sendmax: usize) -> Observer {
+    let (client, server) = pair_from(Ipv4Addr::new(127, 0, 0, 1)).await;
+    let addr = IpAddr::V4(Ipv4Addr::new(127, 0, 0, 1));
+    let mut sess = accept_connection(global, tables, server, crate::fsm::Role::Passive)
+        .await
+        .expect("accept_connection");
+    let stream = sess.stream.take().unwrap();
+    let peer = stream.peer_addr().unwrap();
+    let local = stream.local_addr().unwrap();
+    let mut caps = vec![
+        packet::Capability::MultiProtocol(Family::IPV4),
+        packet::Capability::FourOctetAsNumber(65002),
+    ];
+    if sendmax > 1 {
+        caps.push(packet::Capability::AddPath(vec![(Family::IPV4, 1)]));
+    }
+    let daemon_caps = global.read().await.peers.get(&addr).unwrap().config.local_cap.clone();
+    let mut remote = Remote::new(client, 65002);
+    remote.codec = bgp::PeerCodec::negotiate(&caps, &daemon_caps);
+    let role = sess.role;
+    let inputs = vec![
+        crate::fsm::Input::Connected(false),
+        crate::fsm::Input::MessageReceived(bgp::Message::Open(bgp::Open {
+            as_number: 65002,
+            holdtime: HoldTime::new(90).unwrap(),
+            router_id: u32::from(Ipv4Addr::new(10, 9, 9, 9)),
+            capability: caps,
+        })),
+        crate::fsm::Input::MessageReceived(bgp::Message::Keepalive),
+    ];
+    for i in inputs {
+        let outs = sess.conn_arbiter.lock().unwrap().process(role, i);
+        let (_step, effects) = sess.apply_outputs(outs, local, peer).await;
+        sess.process_effects(effects, global).await;
+    }
+    Observer { sess, stream, remote, local, peer }
+}
+
+impl ExWorld {
+    async fn new(sendmax: usize) -> Self {
+        let global = mk_global();
+        let tables: TableHandle = Arc::new(TableManager::new(1));
+        let obs_addr = IpAddr::V4(Ipv4Addr::new(127, 0, 0, 1));
+        let mut p = base_params(obs_addr);
+        if sendmax > 1 {
+            p.families.insert(Family::IPV4, 2);
+            p.send_max.insert(Family::IPV4, sendmax);
+        }
+        global.write().await.add_peer(p, None).unwrap();
+        let mut sources = FnvHashMap::default();
+        for s in ["s1", "s2", "o"] {
+            sources.insert(s.to_string(), ex_new_source(s));
+        }
+        let obs = Some(ex_observer(&global, &tables, sendmax).await);
+        ExWorld { global, tables, obs_addr, sendmax, sources, attrs: FnvHashMap::default(), obs, mirror: Default::default() }
+    }
+
+    /// flush the session and read everything it wrote (a KEEPALIVE written afterwards marks the end)
+    async fn flush_and_read(&mut self) -> String {
+        let mut note = String::new();
+        let o = self.obs.as_mut().unwrap();
+        if !o.sess.flush_tx(&mut o.stream).await {
+            note.push_str("flush_tx failed;");
+        }
+        let mut marker = bytes::BytesMut::new();
+        bgp::PeerCodec::new().encode_to(&bgp::Message::Keepalive, &mut marker).unwrap();
+        // two KEEPALIVEs: the daemon's own control KEEPALIVE may precede, so use a distinctive pair
+        let _ = o.stream.write_all(&marker).await;
+        let _ = o.stream.write_all(&marker).await;
+        let mut ka = 0;
+        loop {
+            match o.remote.recv(WAIT_MS).await {
+                Some(bgp::Message::Keepalive) => {
+                    ka += 1;
+                    if ka >= 2 {
+                        break;
+                    }
+                }
+                Some(bgp::Message::Update(bgp::Update::Reach { entries, attr, .. })) => {
+                    ka = 0;
+                    let c = ex_content(&attr);
+                    for e in entries {
+                        self.mirror.insert((ex_prefix_name(&e.nlri), e.path_id), c.clone());
+                    }
+                }
+                Some(bgp::Message::Update(bgp::Update::Unreach { entries, .. })) => {
+                    ka = 0;
+                    for e in entries {
+                        self.mirror.remove(&(ex_prefix_name(&e.nlri), e.path_id));
+                    }
+                }
+                Some(_) => {
+                    ka = 0;
+                }
+                None => {
+                    note.push_str("read from session failed;");
+                    break;
+                }
+            }
+        }
+        note
+    }
+
+    async fn apply(&mut self, tok: &[&str]) -> String {
+        let mut note = String::new();
+        match tok[0] {
+            "announce" => {
+                let src = self.sources[tok[1]].clone();
+                let nh = bgp::Nexthop::V4(match tok[1] {
+                    "s1" => Ipv4Addr::new(192, 0, 2, 1),
+                    "s2" => Ipv4Addr::new(192, 0, 2, 2),
+                    _ => Ipv4Addr::new(192, 0, 2, 3),
+                });
+                self.tables.insert_route(
+                    src,
+                    Family::IPV4,
+                    packet::PathNlri { path_id: 0, nlri: ex_prefix(tok[2]) },
+                    Some(nh),
+                    self.attrs
+                        .entry((tok[1].to_string(), tok[3].to_string()))
+                        .or_insert_with(|| ex_attrs(tok[1], tok[3]))
+                        .clone(),
+                    None,
+                    0,
+                );
+            }
+            "withdraw" => {
+                let src = self.sources[tok[1]].clone();
+                self.tables.remove_route(
+                    src,
+                    Family::IPV4,
+                    packet::PathNlri { path_id: 0, nlri: ex_prefix(tok[2]) },
+                    None,
+                    0,
+                );
+            }
+            "peerdown" => {
+                self.tables.drop_families(ex_src_addr(tok[1]), &[Family::IPV4]);
+                self.sources.insert(tok[1].to_string(), ex_new_source(tok[1]));
+            }
+            "markllgr" => {
+                self.tables.mark_llgr_stale(ex_src_addr(tok[1]), &[Family::IPV4]);
+            }
+            "deliver" => {
+                let o = self.obs.as_mut().unwrap();
+                use futures::FutureExt;
+                match o.sess.peer_event_rx.as_mut().unwrap().next().now_or_never() {
+                    Some(Some(ToPeerEvent::NlriChange(u))) => o.sess.handle_prefix_update(u),
+                    Some(Some(_)) => note.push_str("unexpected peer event;"),
+                    _ => note.push_str("no notification to deliver;"),
+                }
+            }
+            "flush" => {
+                note.push_str(&self.flush_and_read().await);
+            }
+            "refresh" => {
+                let o = self.obs.as_mut().unwrap();
+                o.sess.do_route_refresh(Family::IPV4).await;
+            }
+            "fresh" => {
+                // a brand-new session to the same neighbour from the current RIB
+                if let Some(o) = self.obs.take() {
+                    drop(o);
+                }
+                self.tables.unregister_peer(self.obs_addr, &[], &[]);
+                {
+                    let g = self.global.read().await;
+                    let ctx = g.peers.get(&self.obs_addr).unwrap().context.lock().unwrap();
+                    let mut arb = ctx.conn_arbiter.lock().unwrap();
+                    arb.passive_close_tx = None;
+                    arb.passive_join_handle = None;
+                    let _ = arb.process(crate::fsm::Role::Passive, crate::fsm::Input::Disconnected);
+                }
+                self.mirror.clear();
+                self.obs = Some(ex_observer(&self.global, &self.tables, self.sendmax).await);
+                note.push_str(&self.flush_and_read().await);
+            }
+            x => panic!("harness: op {x}"),
+        }
+        note
+    }
+
+    fn project(&self) -> String {
+        let o = self.obs.as_ref().unwrap();
+        let pend_empty = o.sess.pending.values().all(|p| p.is_empty());
+        let m: Vec<String> = self
+            .mirror
+            .iter()
+            .map(|((p, pid), (src, cls, ll))| format!("[\"{}\",{},\"{}\",\"{}\",{}]", p, pid, src, cls, ll))
+            .collect();
+        format!("{{\"mirror\":[{}],\"pend_empty\":{}}}", m.join(","), pend_empty)
+    }
+}
+
+#[tokio::test]
+async fn export_replay() {
+    let Ok(inp) = std::env::var("VERIF_IN") else {
+        return;
+    };
+    let outp = std::env::var("VERIF_OUT").expect("VERIF_OUT");
+    let text = std::fs::read_to_string(&inp).expect("read VERIF_IN");
+    let mut out = std::io::BufWriter::new(std::fs::File::create(&outp).expect("create VERIF_OUT"));
+    let mut w: Option<ExWorld> = None;
+    let mut seq = String::new();
+    let mut step = 0usize;
+    for line in text.lines() {
+        let tok: Vec<&str> = line.split_whitespace().collect();
+        if tok.is_empty() {
+            continue;
+        }
+        if tok[0] == "seq" {
+            seq = tok[1].to_string();
+            step = 0;
+            let mut nw = ExWorld::new(tok[2].parse().unwrap()).await;
+            // the initial dump of the empty RIB (OPEN, KEEPALIVE, End-of-RIB)
+            let _ = nw.flush_and_read().await;
+            w = Some(nw);
+            continue;
+        }
+        step += 1;
+        let world = w.as_mut().unwrap();
+        let note = world.apply(&tok).await;
+        writeln!(
+            out,
+            "{{\"seq\":\"{}\",\"step\":{},\"state\":{},\"note\":\"{}\"}}",
+            seq,
+            step,
+            world.project(),
+            note
+        )
+        .unwrap();
+    }
+    out.flush().unwrap();
+}
